@@ -48,6 +48,12 @@ def eof_universe():
         progs.append((("match", x), ("wait", ("cat", (L("b"), ENDM))), ("hook", "h")))
         progs.append((("match", x), ("wait", ENDM), ("hook", "h")))
         progs.append((("try", (("match", x), ("wait", L("b"))), None, (("finish", "G"),)), ("finish", "F")))
+    for y in (("re", RX["[^a]"]), ("re", RX["."]), ("re", RX["\\D"]), ("re", U.q("[^ab]", "+"))):
+        progs.append((("match", L("x")), ("case", False, ((None, (y,), (("set", "n", ("num", 1)),)), (None, (L("ac"),), (("set", "n", ("num", 2)),)))), ("hook", "h")))
+        progs.append((("match", L("x")), ("case", True, ((None, (y,), (("set", "n", ("num", 1)),)), (None, (L("ac"),), (("set", "n", ("num", 2)),)))), ("hook", "h")))
+        progs.append((("case", False, ((None, (y,), (("hook", "h"),)), (None, ("else",), (("hook", "g"),)))),))
+        progs.append((("optional", (("match", y),)), ("match", L("a")), ("match", ENDM)))
+        progs.append((("loop", None, (("case", False, ((None, (y,), ()), (None, (L("ab"),), (("break", None),)))),)), ("hook", "h")))
     progs.append((("match", ENDM),))
     progs.append((("match", ENDM), ("hook", "h")))
     progs.append((("hook", "h"), ("match", ENDM)))
@@ -63,6 +69,8 @@ def run(tier, seed):
     items = []
     for i, p in enumerate(eof_universe()):
         items.append(dict(ast=p, label="EOF#%d" % i, want_c=(i % 4 == seed % 4), cap=3000, levels=[[]] if tier == "quick" else [[], ["-O0"], ["-O3"]], extra=["-feof-support"]))
+        if tier == "thorough" or i % 2 == seed % 2:
+            items.append(dict(ast=p, label="EOF#%d/strict" % i, want_c=(i % 8 == seed % 8), cap=3000, levels=[[]] if tier == "quick" else [[], ["-O3"]], extra=["-feof-support", "-fstrict-done-token-generation"]))
     gen = [(i, p) for i, p in enumerate(U.enumerate_programs(2)) if (i < 992 and i % 3 == seed % 3) or i % (31 if tier == "quick" else 5) == seed % (31 if tier == "quick" else 5)]
     for i, p in gen:
         items.append(dict(ast=p, label="U#%d" % i, want_c=(i % 37 == seed % 37), cap=2000, levels=[[]], extra=["-feof-support"]))
